@@ -72,6 +72,11 @@ CLAIMED["C12"] = dict(
     text="Decides the guard and wiring clauses: every documented parameter range check rejects exactly the out-of-range orderings (the deviant `delta != 0.0` guard was found this way), the sample-to-share map reduces modulo a power of two for every admitted width (the 2^32-1 modulus at the production width was found this way), the three noise/padding passes exclude H1, H2, H3 on distinct steps, the two generating helpers draw from the PRSS side they share and the excluded helper contributes zero. The distribution law, truncation point and achieved delta are numerical and not decided.",
     ref="§3 C12")
 
+CLAIMED["C03"] = dict(
+    technique="static analysis: closed-form relations between compiler-evaluated constants (including the cfg(not(test)) production values no test compiles), expression-shape extraction of the Fiat-Shamir challenge map, verdict-guard polarity, prover/verifier table pairing census",
+    text="Decides the constant and wiring clauses: the recursion capacity FRF*(CRF-1)*CRF^(MAX-2) covers 4*TARGET_PROOF_SIZE for the constants compiled into each analysed configuration (0.66 % margin in production) and ProofBatch::generate asserts that bound; batch sizes derived from TARGET_PROOF_SIZE are rounded down; generator alias arities, ARRAY_LEN and PRSS_RECORDS_PER_BATCH agree; the challenge is mapped into [exclude_to, prime); the proof-field constants are what their names say; BatchToVerify::verify fails exactly on a non-zero recombined difference; verifier table indices are paired with the right table. The algebraic identity of the u/v tables and soundness against bit flips are not decided.",
+    ref="§3 C03")
+
 NOT_APPLICABLE = {
     "C01": "end-to-end numerical equality of the MPC histogram with a plaintext reference over all inputs/shardings: no clause of it is visible in code shape; static analysis in reach cannot bound it (DESIGN.md §4)",
     "C07": "functional correctness of arithmetic/Boolean circuits over all operand values is numerical; would need symbolic execution of the circuits, a different technique family (DESIGN.md §4)",
